@@ -27,6 +27,7 @@ static double verif_atof(const char* s)
    g_atof_arg = s;
    return 1234.5 + (double)std::strlen(s);      /* a value the function cannot produce by itself */
 }
+namespace std { using ::verif_atof; }           /* the headers also contain std::atof calls */
 #define atof verif_atof
 #include "soplex/spxlpbase.h"
 #undef atof
